@@ -45,6 +45,7 @@ type Sched struct {
 	MapsOf      map[string]map[int]bool // actor -> ids of the type maps it encoded with
 	PartsOf     map[string]map[int]bool // actor -> ids of the internal tables of those maps
 	ParkOnce    map[string]string       // actor -> a point at which it parks once more (then the entry is removed)
+	keepAlive   []any
 	Pass        map[string]bool         // points that never park (and are not logged)
 	Rename      map[string]string       // point -> the name under which an arrival there is logged
 }
@@ -71,10 +72,6 @@ func NewSched(x *Exec) *Sched {
 func (s *Sched) Hook(point string, subject any) {
 	g := goid()
 	s.mu.Lock()
-	if s.free {
-		s.mu.Unlock()
-		return
-	}
 	actor, known := s.byGoid[g]
 	if c, ok := subject.(net.Conn); ok {
 		if a, ok := c.RemoteAddr().(mem.Addr); ok {
@@ -82,6 +79,14 @@ func (s *Sched) Hook(point string, subject any) {
 			s.byGoid[g] = actor
 			known = true
 		}
+	}
+	if s.free {
+		// the schedule is over: nothing parks any more, but which type map a connection encodes with is still noted
+		if known && point == "encode.enter" && s.OnlyPark != nil {
+			s.noteMap(actor, subject)
+		}
+		s.mu.Unlock()
+		return
 	}
 	if !known {
 		// a goroutine the schedule does not control (e.g. Stop at the end)
@@ -99,30 +104,7 @@ func (s *Sched) Hook(point string, subject any) {
 		delete(s.ParkOnce, actor) // park here, this once
 	} else if s.OnlyPark != nil && !s.OnlyPark[point] {
 		if point == "encode.enter" {
-			if s.mapIDs == nil {
-				s.mapIDs = map[string]int{}
-				s.MapsOf = map[string]map[int]bool{}
-			}
-			// identity of the type map AND of each of its internal tables: a copy of the struct that still
-			// shares its tables is shared state all the same
-			for i, key := range mapParts(subject) {
-				id, ok := s.mapIDs[key]
-				if !ok {
-					id = len(s.mapIDs) + 1
-					s.mapIDs[key] = id
-				}
-				dst := s.MapsOf
-				if i > 0 {
-					if s.PartsOf == nil {
-						s.PartsOf = map[string]map[int]bool{}
-					}
-					dst = s.PartsOf
-				}
-				if dst[actor] == nil {
-					dst[actor] = map[int]bool{}
-				}
-				dst[actor][id] = true
-			}
+			s.noteMap(actor, subject)
 		}
 		s.mu.Unlock()
 		return
@@ -135,6 +117,36 @@ func (s *Sched) Hook(point string, subject any) {
 	s.cond.Broadcast()
 	s.mu.Unlock()
 	<-p.release
+}
+
+// noteMap records (under s.mu) the identity of the type map an actor encodes with, AND of each of its internal
+// tables: a copy of the struct that still shares its tables is shared state all the same
+func (s *Sched) noteMap(actor string, subject any) {
+	if s.mapIDs == nil {
+		s.mapIDs = map[string]int{}
+		s.MapsOf = map[string]map[int]bool{}
+	}
+	// (every map seen stays referenced: identities are addresses, and the address of a collected map could be
+	// handed out again to the map of a later connection)
+	s.keepAlive = append(s.keepAlive, subject)
+	for i, key := range mapParts(subject) {
+		id, ok := s.mapIDs[key]
+		if !ok {
+			id = len(s.mapIDs) + 1
+			s.mapIDs[key] = id
+		}
+		dst := s.MapsOf
+		if i > 0 {
+			if s.PartsOf == nil {
+				s.PartsOf = map[string]map[int]bool{}
+			}
+			dst = s.PartsOf
+		}
+		if dst[actor] == nil {
+			dst[actor] = map[int]bool{}
+		}
+		dst[actor][id] = true
+	}
 }
 
 // Gate is called by the scripted statement function (point "h.enter").
